@@ -258,7 +258,7 @@ pub fn run(tier: Tier, replay: Option<&str>) {
     }
     let returned = AtomicU64::new(0);
     let refused = AtomicU64::new(0);
-    let offs: Vec<u8> = if th { (0..=255).collect() } else { vec![0, 1, 2, 100, 128, 200, 254, 255] };
+    let offs: Vec<u8> = if th { (0..=255).collect() } else { (0..=255).step_by(5).chain([1, 2, 128, 254]).collect() };
     groups.par_iter().for_each(|g| {
         let mut sess = match build(g) {
             Ok(s) => s,
